@@ -2156,6 +2156,17 @@ impl Machine {
     pub(crate) fn file_copy(&mut self) {
         if let Some(file) = self.machine_st.value_to_str_like(self.deref_register(1)) {
             if let Some(copied) = self.machine_st.value_to_str_like(self.deref_register(2)) {
+                // fs::copy truncates the target first: copying a file onto itself
+                // would destroy its contents.
+                if let (Ok(from), Ok(to)) = (
+                    fs::canonicalize(&*file.as_str()),
+                    fs::canonicalize(&*copied.as_str()),
+                ) {
+                    if from == to {
+                        return;
+                    }
+                }
+
                 if fs::copy(&*file.as_str(), &*copied.as_str()).is_ok() {
                     return;
                 }
